@@ -31,9 +31,19 @@ def rot32(x):
     return ((x << 32) | (x >> 32)) & M64
 
 
+def vector_key(e, target_v1=False):
+    """the key that makes ALL FOUR lanes of the initial v0 (or v1) equal to e (e = 0: v0 is the zero vector)"""
+    return tuple(rot32(INIT1[i] ^ e) if target_v1 else (INIT0[i] ^ e) for i in range(4))
+
+
+SPECIAL_KEYS = [vector_key(e, t) for e in (0, M64, 0xFFFFFFFF, 0xFFFFFFFF00000000, 1 << 63, 1) for t in (False, True)]
+
+
 def boundary_key(rng):
     """a key that puts chosen edge values into the initial v0 (= init0 ^ key) or v1 (= init1 ^ rot32(key)) lanes,
     so that carries across bit 32 / bit 64 and sign bits are exercised by the first remainder step"""
+    if rng.below(3) == 0:
+        return rng.choice(SPECIAL_KEYS)
     k = []
     target_v1 = rng.below(3) == 0
     for i in range(4):
